@@ -75,3 +75,63 @@ impl Write for RecW {
         Ok(())
     }
 }
+
+/// Minimal pass-through writer into a fixed buffer (no logging): used by the
+/// large value sweeps of C04.
+pub struct BufW {
+    pub buf: Box<[u8; 8192]>,
+    pub len: usize,
+    pub flushes: usize,
+    pub failed: bool,
+}
+
+impl BufW {
+    pub fn new() -> BufW {
+        BufW { buf: Box::new([0; 8192]), len: 0, flushes: 0, failed: false }
+    }
+    pub fn clear(&mut self) {
+        self.len = 0;
+        self.flushes = 0;
+        self.failed = false;
+    }
+    pub fn bytes(&self) -> &[u8] {
+        &self.buf[..self.len]
+    }
+    fn put(&mut self, b: &[u8]) -> Result<(), Error> {
+        if self.len + b.len() > self.buf.len() {
+            self.failed = true;
+            return Err(Error::TooMuchData);
+        }
+        self.buf[self.len..self.len + b.len()].copy_from_slice(b);
+        self.len += b.len();
+        Ok(())
+    }
+}
+
+impl core::fmt::Write for BufW {
+    fn write_str(&mut self, s: &str) -> core::fmt::Result {
+        self.put(s.as_bytes()).map_err(|_| core::fmt::Error)
+    }
+}
+
+impl Write for BufW {
+    async fn write_bytes(&mut self, bytes: &[u8]) -> Result<(), Error> {
+        self.put(bytes)
+    }
+    async fn write_char(&mut self, c: char) -> Result<(), Error> {
+        let mut b = [0u8; 4];
+        // the shipped writers store `c as u8`; chars written by the library are ASCII
+        let s = c.encode_utf8(&mut b);
+        self.put(s.as_bytes())
+    }
+    async fn write_str(&mut self, s: &str) -> Result<(), Error> {
+        self.put(s.as_bytes())
+    }
+    async fn write_fmt(&mut self, args: core::fmt::Arguments<'_>) -> Result<(), Error> {
+        core::fmt::Write::write_fmt(self, args).map_err(|_| Error::SystemError)
+    }
+    async fn flush(&mut self) -> Result<(), Error> {
+        self.flushes += 1;
+        Ok(())
+    }
+}
